@@ -169,6 +169,7 @@ static void add_random_headers(Rng &r, const GenFeatures &f, MsgSpec &m, bool is
         bool fold = f.fold && r.chance(1, 6);
         // response continuation lines containing ':' are deliberately re-interpreted by libhtp (htp_response.c invalid-folding rule)
         h.value = rand_value(r, r.chance(1, 10) ? 0 : 1, 24, true);
+        if (f.many_headers && r.chance(1, 150)) h.value = rand_value(r, 1000, 8000, true);   // a line that takes many small chunks to assemble (below the soft limit)
         static const char *OWS[] = {"", " ", "\t", "  ", " \t"};
         h.ows1 = OWS[r.below(5)]; h.ows2 = r.chance(1, 4) ? OWS[r.below(5)] : "";
         if (fold) {
